@@ -166,6 +166,12 @@ uint64_t cmb_wtdsummary_merge(struct cmb_wtdsummary *tgt,
     const struct cmb_datasummary *dsp2 = (struct cmb_datasummary *)ws2;
 
     ts->count = dsp1->count + dsp2->count;
+    if (ts->count == 0u) {
+        /* Both empty, so is the result. Avoid dividing zero by zero below. */
+        *tgt = tws;
+        return 0u;
+    }
+
     ts->min = (dsp1->min < dsp2->min) ? dsp1->min : dsp2->min;
     ts->max = (dsp1->max > dsp2->max) ? dsp1->max : dsp2->max;
 
